@@ -172,6 +172,19 @@ func C10(run *ev.Run, tier string) map[string]interface{} {
 					}
 					g := impl.Do(drv.Op{K: drv.KGet, Table: "tab", Key: key})
 					check("GetItem-after-unrelated-UpdateItem", g.Item, len(g.Item) > 0)
+					// the item is written once more under the same primary and index key with another value,
+					// and back: reads through the index return what was written last
+					second := val.Item{"h": val.S("k"), "v": val.S("second version"), "oth": val.S("o")}
+					for _, w := range []val.Item{second, item} {
+						if r := impl.Do(drv.Op{K: drv.KPut, Table: "tab", Item: w}); r.Err != "" {
+							continue
+						}
+						r := impl.Do(drv.Op{K: drv.KQuery, Table: "tab", Index: "gsi", KeyCond: rx.Eq("oth", ":o"), Values: map[string]val.V{":o": val.S("o")}})
+						atomic.AddInt64(&evals, 1)
+						if r.Err != "" || len(r.Items) != 1 || !(val.ItemEqual(r.Items[0], w) || val.ItemEqual(NullifyEmpty(w), r.Items[0])) {
+							run.Report(fmt.Sprintf("C10|Query(index)-after-rewrite|value-changed|%s@%s", tree.T, d.Name), fmt.Sprintf("after rewriting the item as %s, Query through the index returns %s", w.CanonText(), r.Short()), map[string]interface{}{"driver": d.Name, "path": "Query(index)-after-rewrite", "value": tree})
+						}
+					}
 				}
 			}
 		}()
@@ -188,7 +201,7 @@ func C10(run *ev.Run, tier string) map[string]interface{} {
 	return map[string]interface{}{
 		"evaluations":         evals,
 		"distinct_nontrivial": len(trees),
-		"rule":                "every attribute-value tree over the boundary leaves (empty and non-empty S and B, numbers in several notations incl. -0 / 1.50 / 1e2 and the family sign x mantissa x exponent part (e/E, signed, 1-3 digits), both booleans, NULL, sets with one and two members) of depth 1 and 2 (lists and maps with 0, 1, 2 children; thorough: depth 3 over representatives and a depth-5 spine), stored as a non-key attribute with PutItem and read back through GetItem, Query, Scan, Query and Scan with Limit 1 (a filled page), Query and Scan through a secondary index, BatchGetItem (SDK v2) and GetItem after an UpdateItem of an unrelated attribute, in both SDK clients; a tree is distinct by its canonical text",
+		"rule":                "every attribute-value tree over the boundary leaves (empty and non-empty S and B, numbers in several notations incl. -0 / 1.50 / 1e2 and the family sign x mantissa x exponent part (e/E, signed, 1-3 digits), both booleans, NULL, sets with one and two members) of depth 1 and 2 (lists and maps with 0, 1, 2 children; thorough: depth 3 over representatives and a depth-5 spine), stored as a non-key attribute with PutItem and read back through GetItem, Query, Scan, Query and Scan with Limit 1 (a filled page), Query and Scan through a secondary index, BatchGetItem (SDK v2) GetItem after an UpdateItem of an unrelated attribute and Query through the index after the item was rewritten under the same keys, in both SDK clients; a tree is distinct by its canonical text",
 		"oracle":              "structural equality of names, types and values (sets as sets, numbers by numeric value)",
 		"samples":             samples,
 		"exhaustive":          true,
